@@ -57,6 +57,14 @@ Section Proofs.
     destruct (string_op inferrer None m) as [m1 o]. cbn in *. subst o. split; reflexivity.
   Qed.
 
+  Lemma inv_format_as_json ofmt s m : Inv s m -> Inv s (fst (format_as_json inferrer ofmt m)).
+  Proof.
+    intros H. pose proof (inv_force s m H) as Hf. unfold format_as_json.
+    destruct (ty (force inferrer m)) eqn:Et; cbn [fst]; try exact Hf.
+    - destruct (pay (force inferrer m)); exact Hf.
+    - pose proof (inv_string_op ofmt s _ Hf) as H1. destruct (string_op inferrer ofmt (force inferrer m)); exact H1.
+  Qed.
+
   Definition pure_read (u : uop) : bool := match u with UStringify => false | _ => true end.
 
   Lemma inv_copy s m : Inv s m -> Inv s (MV (text m) (valid m) (ty m) (pay m)).
@@ -73,9 +81,7 @@ Section Proofs.
     - pose proof (inv_original ofmt s m H) as H1. destruct (original_string_op inferrer ofmt m); exact H1.
     - pose proof (inv_smq ofmt s m H) as H1. destruct (string_maybe_quoted_op inferrer ofmt m); exact H1.
     - (* UFormatAsJSON *)
-      destruct (ty (force inferrer m)) eqn:Et; cbn [fst]; try exact Hf.
-      + destruct (pay (force inferrer m)); exact Hf.
-      + apply inv_string_op; exact Hf.
+      pose proof (inv_format_as_json ofmt s m H) as H1. destruct (format_as_json inferrer ofmt m); exact H1.
     - (* UStringify *)
       destruct Hp as [->|Hp]; [|discriminate]. now apply inv_stringify_none.
     - (* UFormat *) destruct via_string; cbn [fst]; [now apply inv_string_op|exact Hf].
@@ -164,6 +170,14 @@ Section Proofs.
     - cbn [fst]. rewrite set_print_rep_valid by (apply (reach_inv s m H)). exact H.
   Qed.
 
+  Lemma reach_format_as_json ofmt s m : Reach s m -> Reach s (fst (format_as_json inferrer ofmt m)).
+  Proof.
+    intros H. pose proof (reach_forced s m H) as Hf. unfold format_as_json.
+    destruct (ty (force inferrer m)) eqn:Et; cbn [fst]; try exact Hf.
+    - destruct (pay (force inferrer m)); exact Hf.
+    - pose proof (reach_string_op ofmt s _ Hf) as H1. destruct (string_op inferrer ofmt (force inferrer m)); exact H1.
+  Qed.
+
   Lemma reach_uop ofmt u s m : pure_read u = true -> Reach s m -> Reach s (fst (apply_uop inferrer ofmt u m)).
   Proof.
     intros Hp H. pose proof (reach_forced s m H) as Hf. pose proof (reach_string_op ofmt s m H) as Hs.
@@ -171,9 +185,7 @@ Section Proofs.
     - destruct (string_op inferrer ofmt m); exact Hs.
     - unfold original_string_op. destruct (valid m); [exact H|]. destruct (string_op inferrer ofmt m); exact Hs.
     - unfold string_maybe_quoted_op. destruct (string_op inferrer ofmt m); exact Hs.
-    - destruct (ty (force inferrer m)) eqn:Et; cbn [fst]; try exact Hf.
-      + destruct (pay (force inferrer m)); exact Hf.
-      + now apply reach_string_op.
+    - pose proof (reach_format_as_json ofmt s m H) as H1. destruct (format_as_json inferrer ofmt m); exact H1.
     - destruct via_string; cbn [fst]; [exact Hs|exact Hf].
     - destruct forces, strings; cbn [fst]; auto; now apply reach_string_op.
     - destruct m; exact H.
@@ -233,6 +245,29 @@ Section Proofs.
     intros Hp.
     pose proof (reach_run (Some f) ops s1 s2 _ _ Hp (or_introl eq_refl) (or_introl eq_refl)) as H.
     cbv zeta in *. destruct H as [H1 H2]. split; now apply reach_output_ofmt.
+  Qed.
+
+  (* JSON output of a value that was only read: closed form in terms of the input text and its inference *)
+  Definition json_of_text (s : bytes) : jout :=
+    match inferrer s with
+    | VInt n => JDecimal (format_int n)
+    | VFloat _ => if is_valid_json_number s then JSame s else JRerendered
+    | VString | VEmpty => JQuoted
+    end.
+
+  Lemma reach_json s m : Reach s m -> snd (format_as_json inferrer None m) = json_of_text s.
+  Proof.
+    intros H. unfold format_as_json, json_of_text. rewrite (reach_force s m H). unfold infer_mv. cbn [text from_data].
+    destruct (inferrer s) eqn:E; cbn; try reflexivity; try (destruct s; reflexivity).
+  Qed.
+
+  Lemma json_rerender_only_when_invalid s1 s2 ops :
+    forallb pure_rop ops = true ->
+    let st := fst (run inferrer None ops (from_data s1, from_data s2)) in
+    snd (format_as_json inferrer None (fst st)) = json_of_text s1 /\ snd (format_as_json inferrer None (snd st)) = json_of_text s2.
+  Proof.
+    intros Hp. pose proof (reach_run None ops s1 s2 _ _ Hp (or_introl eq_refl) (or_introl eq_refl)) as H.
+    cbv zeta in *. destruct H as [H1 H2]. split; now apply reach_json.
   Qed.
 
   (* the only states a pure read history can reach: untouched, or inferred once *)
